@@ -210,6 +210,57 @@ pub fn run(ctx: &Ctx) -> i32 {
                 ev.count("builds:duplicated-wide-subautomata");
             }
         }
+        // sharing that must survive distance and history: (1) a few tiny states reused by many WIDE nodes across a file of
+        // hundreds of KB (targets > 64 KiB back), (2) common suffixes separated by long runs of unique nodes
+        for variant in 0..ctx.tier.pick(6, 24) {
+            if variant % n != shard {
+                continue;
+            }
+            let mut r = Rng::new(ctx.seed, 0x12_fa7 + variant as u64);
+            let mut keys: Vec<Vec<u8>> = vec![];
+            let what;
+            if variant % 2 == 0 {
+                what = "tiny states reused by many wide nodes far back";
+                let ntails = 4 + r.usize(20);
+                let nwide = 60 + r.usize(120);
+                let fan = [256usize, 200, 64, 65][variant / 2 % 4];
+                for i in 0..nwide {
+                    for b in 0..fan {
+                        // pseudo-random tail per (wide node, byte): all wide nodes are distinct, the tails are few
+                        let j = (crate::rng::mix((i as u64) << 16 | b as u64 | (variant as u64) << 40) % ntails as u64) as usize;
+                        keys.push(vec![b'A' + (i / 200) as u8, (i % 200) as u8, b as u8, b'x', j as u8]);
+                    }
+                }
+            } else {
+                what = "common suffixes separated by long unique keys";
+                let suffix: Vec<u8> = b"-common-suffix".to_vec();
+                let nruns = 2 + r.usize(4);
+                for run in 0..=nruns {
+                    let mut k = vec![b'a' + (run * 3) as u8];
+                    k.extend_from_slice(&suffix);
+                    keys.push(k);
+                    if run < nruns {
+                        // one or several long keys of unique bytes between two occurrences of the suffix
+                        for u in 0..(1 + r.usize(3)) {
+                            let mut k = vec![b'a' + (run * 3) as u8 + 1, u as u8];
+                            let l = [100usize, 520, 700, 1500, 3000][r.usize(5)];
+                            k.extend((0..l).map(|_| r.next() as u8));
+                            keys.push(k);
+                        }
+                    }
+                }
+            }
+            keys.sort();
+            keys.dedup();
+            let kv: Kv = keys.into_iter().map(|k| (k, 0)).collect();
+            ev.fps.insert(crate::rng::fnv_u64(0x12_fa7, variant as u64));
+            // a roomy cache (hook H1) keeps the premise "no eviction" true even for thousands of distinct nodes
+            let jr = judge(&kv, (200_000, 2), what, ev);
+            if std::env::var_os("C12_DEBUG").is_some() {
+                eprintln!("variant {} {} nkeys={} (trie,nodes,minimal)={:?}", variant, what, kv.len(), jr);
+            }
+            ev.count("builds:far-back-and-history-shapes");
+        }
         // random sets/maps up to 3000 keys with heavy suffix sharing, all geometries
         let nrand = ctx.tier.pick(2000, 50_000);
         for i in 0..nrand {
@@ -226,7 +277,8 @@ pub fn run(ctx: &Ctx) -> i32 {
             let ml = 2 + r.usize(7);
             let keys = gen::random_keys(&mut r, nk, &alpha, ml);
             let kv = gen::assign(keys, if i % 2 == 0 { 0 } else { [6usize, 1, 8, 2][i % 4] }, &mut r);
-            let g = GEOMS[(i / 2) % GEOMS.len()];
+            // every 3rd build gets a roomy cache so that large random inputs are judged for minimality too
+            let g = if i % 3 == 0 { (200_000, 2) } else { GEOMS[(i / 2) % GEOMS.len()] };
             ev.fps.insert(crate::rng::fnv_u64(0x12_0000, i as u64));
             judge(&kv, g, "random", ev);
         }
@@ -260,9 +312,9 @@ pub fn run(ctx: &Ctx) -> i32 {
         ev,
         Spec {
             level: "exploration",
-            rule: "one evaluation = one build whose emitted node graph (read by the independent decoder) is compared with harness-side oracles: (1) always: #reachable nodes <= #nodes of the keys' prefix trie; (2) when the cache counters (hook H2) show zero evictions and the cache has cells: no two reachable nodes have the same signature (final, final output, [(byte, output, class(child))]) and, for sets, #nodes == #states of the minimal acyclic DFA computed by bottom-up right-language classes on the trie; (3) corpora as sets: (trie - emitted)/(trie - minimal) > 0.5; builds: ALL 32768 subsets of {a,b}^<=3 as sets (default geometry) and as two maps each (rotating geometries 10000x2, 0x0, 1x1, 1x3, 7x2, 64x2), random sets/maps to 3000 keys, thorough also all subsets of {a,b,c}^<=2; builds with evictions or without cache are counted and excluded from (2); non-trivial = every build; distinct = by fingerprint",
+            rule: "one evaluation = one build whose emitted node graph (read by the independent decoder) is compared with harness-side oracles: (1) always: #reachable nodes <= #nodes of the keys' prefix trie; (2) when the cache counters (hook H2) show zero evictions and the cache has cells: no two reachable nodes have the same signature (final, final output, [(byte, output, class(child))]) and, for sets, #nodes == #states of the minimal acyclic DFA computed by bottom-up right-language classes on the trie; (3) corpora as sets: (trie - emitted)/(trie - minimal) > 0.5; builds: ALL 32768 subsets of {a,b}^<=3 as sets (default geometry) and as two maps each (rotating geometries 10000x2, 0x0, 1x1, 1x3, 7x2, 64x2), the same wide fan under several prefixes, tiny states reused by 60-180 wide nodes across files of hundreds of KB, common suffixes separated by runs of 100-3000 unique nodes, random sets/maps to 3000 keys, thorough also all subsets of {a,b,c}^<=2; builds with evictions or without cache are counted and excluded from (2); non-trivial = every build; distinct = by fingerprint",
             assumptions: vec!["the premise 'no eviction' is taken from the cfg-guarded counters in registry.rs; a tree that replaces the cache implementation keeps them at 0, i.e. claims never to evict".into(), "'most of the achievable sharing' is read as a ratio > 0.5; measured ratios are recorded".into()],
-            floors: vec![("builds:premise-no-eviction-observed", 1000), ("builds:sets-compared-with-minimal-dfa", 1000), ("builds:excluded-from-minimality(evictions-or-no-cache)", 10), ("corpora-judged", 2), ("builds:duplicated-wide-subautomata", 60)],
+            floors: vec![("builds:premise-no-eviction-observed", 1000), ("builds:sets-compared-with-minimal-dfa", 1000), ("builds:excluded-from-minimality(evictions-or-no-cache)", 10), ("corpora-judged", 2), ("builds:duplicated-wide-subautomata", 60), ("builds:far-back-and-history-shapes", 6)],
             exhaustive: Some(true),
         },
     )
